@@ -56,6 +56,7 @@ pub fn run(args: &Args) -> i32 {
     acc.count("samples_handed_over", out.handed);
     acc.count("acknacks_observed", out.acknacks);
     acc.count("nackfrags_observed", out.nackfrags);
+    acc.count("writer_announced_again_mid_history", out.reannouncements);
     acc.count("fragmented_samples_delivered", out.frag_samples_delivered);
     acc.count("faults_dropped", case.faults.0 as u64);
     acc.count("faults_duplicated", case.faults.1 as u64);
@@ -92,6 +93,9 @@ pub fn run(args: &Args) -> i32 {
       acc.count("two_readers:histories", 1);
       if case.second_joins_at > 0 {
         acc.count("two_readers:histories_with_a_late_second_reader", 1);
+      }
+      if case.second_small_limits {
+        acc.count("two_readers:long_histories_next_to_a_reader_with_max_samples_16", 1);
       }
       if out.nontrivial {
         acc.distinct.insert(out.sig ^ 0x5151);
